@@ -55,6 +55,67 @@ macro_rules! iter_rev {
     }};
 }
 
+/// a partly consumed iterator drained by a fold-based consumer ($mode 0: fold, 1: count, 2: last): the
+/// remaining symbols, each exactly once, in order
+macro_rules! iter_drain {
+    ($A:ty, $al:expr, $N:expr, $W:expr, $maxn:expr, $rev:expr, $mode:expr) => {{
+        let b = <$A as Codec>::BITS as usize;
+        let w = any_words::<{ $W }>();
+        let s = arr::<$A, { $N }, { $W }>(w);
+        let (o, n, k) = (any_usize(), any_usize(), any_usize());
+        assume(n <= $maxn && o <= $N - $maxn && k <= n);
+        let win = &s[o..o + n];
+        let code = |j: usize| $al.from_bits[sym(&w, o * b, b, if $rev { n - 1 - j } else { j }) as usize] as u8;
+        let pack = |(c, a): (usize, u64), x: $A| (c + 1, a | ((x.to_bits() as u64 + 1) << (8 * c)));
+        let (cnt, acc, last) = if $rev {
+            let mut it = win.rev_iter();
+            let mut j = 0usize;
+            while j < $maxn {
+                if j < k { it.next(); }
+                j += 1;
+            }
+            match $mode {
+                0 => { let (c, a) = it.fold((0usize, 0u64), pack); (c, a, None) }
+                1 => (it.count(), 0, None),
+                _ => (0, 0, it.last()),
+            }
+        } else {
+            let mut it = win.iter();
+            let mut j = 0usize;
+            while j < $maxn {
+                if j < k { it.next(); }
+                j += 1;
+            }
+            match $mode {
+                0 => { let (c, a) = it.fold((0usize, 0u64), pack); (c, a, None) }
+                1 => (it.count(), 0, None),
+                _ => (0, 0, it.last()),
+            }
+        };
+        if $mode == 0 {
+            let mut want: u64 = 0;
+            let mut j = 0usize;
+            while j < $maxn {
+                if j >= k && j < n {
+                    want |= (code(j) as u64 + 1) << (8 * (j - k));
+                }
+                j += 1;
+            }
+            assert!(cnt == n - k, "C11.drain.fold_visits_each_remaining_symbol_once");
+            assert!(acc == want, "C11.drain.fold_items_in_order");
+        } else if $mode == 1 {
+            assert!(cnt == n - k, "C11.drain.count");
+        } else if k < n {
+            assert!(last.is_some() && last.unwrap().to_bits() == code(n - 1), "C11.drain.last");
+        } else {
+            assert!(last.is_none(), "C11.drain.last_of_exhausted");
+        }
+        reach!(k > 0 && k < n, "partly consumed");
+        reach!(k == n && n > 0, "exhausted");
+        reach!(k == 0 && n == $maxn, "fresh, full length");
+    }};
+}
+
 /// windows(width) (step 1) / chunks(width) (step width) with symbolic width
 macro_rules! chunked {
     ($A:ty, $al:expr, $N:expr, $W:expr, $maxn:expr, $is_windows:expr) => {{
@@ -98,6 +159,12 @@ harnesses! {
     fn c11_t_iter_iupac [10] { iter_fwd!(Iupac, oracle::IUPAC, 32, 2, 6) }
     fn c11_q_iter_text_raw [10] { iter_fwd!(text::Dna, oracle::TEXT_RAW, 16, 2, 2) }
     fn c11_q_rev_iter_text_raw [10] { iter_rev!(text::Dna, oracle::TEXT_RAW, 16, 2, 2) }
+    fn c11_p_drain_fold_dna [10] { iter_drain!(Dna, oracle::DNA, 64, 2, 4, false, 0) }
+    fn c11_p_drain_count_dna [10] { iter_drain!(Dna, oracle::DNA, 64, 2, 4, false, 1) }
+    fn c11_p_drain_last_dna [10] { iter_drain!(Dna, oracle::DNA, 64, 2, 4, false, 2) }
+    fn c11_p_drain_fold_amino [10] { iter_drain!(Amino, oracle::AMINO, 21, 2, 3, false, 0) }
+    fn c11_p_drain_fold_rev_dna [10] { iter_drain!(Dna, oracle::DNA, 64, 2, 4, true, 0) }
+    fn c11_p_drain_count_rev_dna [10] { iter_drain!(Dna, oracle::DNA, 64, 2, 4, true, 1) }
     fn c11_q_rev_iter_dna [10] { iter_rev!(Dna, oracle::DNA, 64, 2, 6) }
     fn c11_q_rev_iter_amino [10] { iter_rev!(Amino, oracle::AMINO, 21, 2, 4) }
     fn c11_t_rev_iter_miupac [10] { iter_rev!(masked::Iupac, oracle::MIUPAC, 25, 2, 4) }
